@@ -348,7 +348,7 @@ func runHarness(bin string, args []string, out string, env []string, timeout tim
 	}
 	data, rerr := os.ReadFile(out)
 	if rerr != nil {
-		return nil, &HarnessCrash{Err: fmt.Sprint(werr), Stderr: se.String()}
+		return nil, &HarnessCrash{Cmd: filepath.Base(bin) + " " + strings.Join(args, " "), Err: fmt.Sprint(werr), Stderr: se.String()}
 	}
 	var r Result
 	if err := json.Unmarshal(data, &r); err != nil {
@@ -447,10 +447,15 @@ func (w *World) DeterminismProbe(bin, mode string, seed uint64, runs int, extra 
 
 // HarnessCrash: the harness process ended without writing a result.
 type HarnessCrash struct {
+	Cmd    string
 	Err    string
 	Stderr string
 }
 
 func (h *HarnessCrash) Error() string {
-	return fmt.Sprintf("harness produced no result (%s): %s", h.Err, tailS(h.Stderr, 3000))
+	head := h.Stderr
+	if len(head) > 1200 {
+		head = head[:1200] + "\n…\n" + tailS(h.Stderr, 1500)
+	}
+	return fmt.Sprintf("harness %s produced no result (%s): %s", h.Cmd, h.Err, head)
 }
